@@ -308,7 +308,10 @@ def near_miss(rng) -> str:
             lambda s: "=>" + s[2:], lambda s: s + "+", lambda s: s.replace(".", "..", 1), lambda s: "~=" + "1",
             lambda s: s + ",", lambda s: "1.0", lambda s: s + " || ", lambda s: "<empty>,>=1", lambda s: s + "||<empty> ",
             lambda s: ">=1.0a.1.post.x", lambda s: "!" + s, lambda s: s[:2] + "1!" + s[2:] + "!2", lambda s: "==1.0.*.1",
-            lambda s: ">1.*", lambda s: "~=1.*", lambda s: "===", lambda s: s + "@"]
+            lambda s: ">1.*", lambda s: "~=1.*", lambda s: "===", lambda s: s + "@",
+            # any printable ASCII character anywhere (seed C17f: a `%` in an invalid string met %-formatting of the error text)
+            lambda s: (lambda i, c: s[:i] + c + s[i:])(rng.randrange(len(s) + 1), chr(rng.randrange(33, 127))),
+            lambda s: s + rng.choice(["%s", "%d", "%(x)s", "%", "{}", "{0}", "\\", "\x00", "\t", "\n"])]
     return rng.choice(muts)(base)
 
 
@@ -352,7 +355,8 @@ def run_c17(run: core.Run, n: int) -> None:
     specials = ["<empty>", "<empty>||<empty>", "<empty>||<empty>||<empty>", ">=1||<empty>", "<empty>||>=1", ">=1||<empty>||<2",
                 "<empty>||<empty>||==1.*", "||", ">=1||", "||>=1", "<empty>|| <empty>", " <empty>", "<empty> ", "<empty>,>=1", "",
                 "~=1.0.po\u017ft1", "~=1.0.prev\u0131ew1", ">=1.0.po\u017ft1", "==1.0.po\u017ft1", "~=1.0.POST1", "~=1.0.Post1||<empty>",
-                "==1.0.\u0131*", "~=1.\u0660"]
+                "==1.0.\u0131*", "~=1.\u0660", "===1.0||>=2",
+                "%3E%3D1.0", ">=1.0%s", ">=%(min)s,<%(max)s", "100%", ">=1.0||<2%s", "{}", ">=1.0{0}", ">=1\x00"]
     for i in range(n + len(specials)):
         if i < len(specials):
             text = specials[i]
